@@ -143,6 +143,16 @@ func (w *c15Walker) scan(n ast.Node, inClosure bool) {
 					writes[s.Args[0]] = true
 				}
 			}
+			// sync/atomic value methods on a tracked field: x.Store(v) / Swap / CompareAndSwap / Add / And / Or
+			// write it (x.Load() is a read, recorded below like any other mention of the field)
+			if fs, ok := s.Fun.(*ast.SelectorExpr); ok {
+				switch fs.Sel.Name {
+				case "Store", "Swap", "CompareAndSwap", "Add", "And", "Or":
+					if f := w.baseMap(fs.X); f != "" {
+						writes[fs.X] = true
+					}
+				}
+			}
 			if w.lockCall(s) != "" {
 				// a lock operation buried inside an expression: not a shape we understand
 				w.bad = true
@@ -604,7 +614,7 @@ func eqOperand(e ast.Expr, field string) string {
 // LogOnlineState(id, true) happen with nobody else in between.  In the code that is the
 // authMutex region of h3sHandler.ServeHTTP; the fact below says all four sit in ONE
 // Lock()…Unlock() region (so two auth requests in flight on one connection cannot both find
-// authenticated == false).  c15_logonline_sites lists every LogOnlineState call site of the
+// authenticated == false).  The flag may be a plain bool or an atomic.Bool (Load = read, Store = write).  c15_logonline_sites lists every LogOnlineState call site of the
 // package: the model has exactly these two.
 func serverFacts(out map[string]any) {
 	dir := filepath.Join(c15RepoRoot(), "core", "server")
